@@ -8,6 +8,7 @@ import AL.Properties.KernelDefs
 import AL.Spec.X86Families
 import AL.Impl.Faults
 import AL.Impl.Cli
+import AL.Impl.Debug
 import Std.Data.HashMap
 open AL AL.Impl AL.Gen
 
@@ -128,6 +129,11 @@ def step (st : DState) (line : String) : DState × String :=
     let n := if r.a.offset > 0 then r.a.offset.toNat else 0
     (st, toString r.exit ++ " " ++ toString r.a.offset ++ " " ++ toHex (r.a.mem.take n) ++ " " ++
       (match r.count with | some c => toString c | none => "-"))
+  | ["CO", flags, stdin, prog] =>
+    -- C20: what asmline writes to stdout (model AL.Impl.cliStdout), as hex
+    let fl := if flags == "-" then [] else (flags.splitOn ",").filterMap parseCliFlag
+    let out := cliStdout fl (stdin == "1") (if prog == "missing" then none else some (unhex prog))
+    (st, if out.isEmpty then "-" else toHex out)
   | ["KF"] =>
     -- C01: the list-level family of the kernel-checked theorem AL.Properties.Kernel.c01_every_instance is, text by text and in the
     -- same order, the family `famC01` this check runs on the C code (rendered through `String`)
@@ -174,6 +180,7 @@ def step (st : DState) (line : String) : DState × String :=
         let vi := parseInt v
         (upd (applySetter a sw (if vi < 0 then 1000000 else vi.toNat)), "ok")
       | none => (st, "ok")
+    | "V", [_], some _ => (st, "ok")      -- asm_set_debug: the listing is the only thing it may change
     | "K", [n], some a =>
       let v := parseInt n
       (upd (setChunkSize a ((v % (2 ^ 64 : Int)).toNat)), "ok")
